@@ -117,6 +117,7 @@ struct Transport::Impl
   {
     std::condition_variable cv;
     bool done{false};
+    bool abandoned{false}; // set under syncMutex by connectSync on its timeout path
     ConnectResult result{ConnectResult::err(TransportErrorInfo{TransportError::Timeout, "pending"})};
   };
   std::mutex syncMutex;
@@ -318,9 +319,14 @@ struct Transport::Impl
           if (it != pendingConnects.end())
           {
             op = it->second;
-            op->result = ConnectResult::ok(sid);
-            op->done = true;
-            pendingConnects.erase(it);
+            // A waiter that already timed out has issued close(sid): keep the
+            // entry so that the onClose for that close stays suppressed too.
+            if (!op->abandoned)
+            {
+              op->result = ConnectResult::ok(sid);
+              op->done = true;
+              pendingConnects.erase(it);
+            }
           }
         }
         // Notify outside syncMutex — avoids the woken thread immediately
@@ -849,6 +855,7 @@ inline ConnectResult Transport::connectSync(const std::string &host, std::uint16
   // returning so connectGuard's dtor (the activeConnects decrement, a syncMutex-
   // guarded mutation) runs UNDER the lock — it destructs before `lk` because it
   // is declared after it.
+  op->abandoned = true;
   lk.unlock();
   _impl->engine->close(sid);
   lk.lock();
